@@ -391,3 +391,6 @@ Definition parse (s : str) : option node :=
 
 From Delb.Tree Require Import Encode.
 Definition enc_opt_node (o : option node) : list N := match o with Some n => 1%N :: enc_node n | None => [0%N] end.
+
+(* what a reader makes of the result of a serialization *)
+Definition reparse (r : res str) : option node := match r with Ok s => parse s | _ => None end.
